@@ -1,5 +1,92 @@
-(** C29 -- placeholder, theorems follow. *)
-From Coq Require Import String List NArith.
-From TLV Require Import Lint.LintModel Lint.LintProofs.
-Example C29_ex0 : lint nil nil = Accept.
+(** C29 -- the backward-compatibility linter accepts the documented safe schema evolutions.
+    Property theorems only (model: Lint/LintModel.v, a transcription of
+    internal/tlcodegen/tlgen.go CheckBackwardCompatibility and what it calls).
+    Every theorem holds for the code as it is ([lint]) and for the repaired variant
+    ([lint_fixed]): they are stated for [lint_with fx], any [fx]. *)
+From Coq Require Import String List NArith ZArith Bool.
+From TLV Require Import Lint.LintModel Lint.LintProofs Lint.LintEdits.
+Import ListNotations.
+Open Scope string_scope.
+Open Scope list_scope.
+
+(** Every schema whose constructor names are pairwise distinct is compatible with itself. *)
+Theorem C29_lint_refl : forall fx a,
+  NoDup (map c_name (filter is_type a)) -> lint_with fx a a = Accept.
+Proof. exact lint_refl. Qed.
+Print Assumptions C29_lint_refl.
+
+(** The general shape: every old combinator still in place, possibly with appended fields that
+    pass the linter's bit check, followed by new combinators (new functions start with a #
+    argument; a one-constructor type that gains constructors is used only boxed). *)
+Theorem C29_accepts_extension : forall fx a pre extras,
+  wf (pre ++ extras) ->
+  Forall2 (comb_ext (check_nat_usages a) (check_nat_usages (pre ++ extras))) a pre ->
+  (forall x, In x extras -> c_fun x = true -> match c_fields x with f0 :: _ => is_nat_field f0 = true | [] => True end) ->
+  (forall c0, types_of a (c_tname c0) = [c0] -> (1 < length (types_of (pre ++ extras) (c_tname c0)))%nat -> boxed_only a c0) ->
+  lint_with fx a (pre ++ extras) = Accept.
+Proof. exact lint_accept_pointwise. Qed.
+Print Assumptions C29_accepts_extension.
+
+(** Safe edit: add a new type, a new constructor of a boxed-only (or already polymorphic)
+    type, or a new function whose first argument is a # (or that has no arguments). *)
+Theorem C29_add_combinator : forall fx a x,
+  wf a -> wf (a ++ [x]) -> new_fun_ok x ->
+  (is_type x = true -> forall c0, types_of a (c_tname x) = [c0] -> boxed_only a c0) ->
+  lint_with fx a (a ++ [x]) = Accept.
+Proof. exact accept_add_combinator. Qed.
+Print Assumptions C29_add_combinator.
+
+(** Safe edit: append a field guarded by an unused bit of an existing local field mask, to
+    the combinator at any position of the schema. *)
+Theorem C29_append_masked_field : forall fx l1 c l2 f,
+  wf (l1 ++ c :: l2) -> field_step_ok (l1 ++ c :: l2) (length l1) c f ->
+  lint_with fx (l1 ++ c :: l2) (l1 ++ add_field c f :: l2) = Accept.
+Proof. exact accept_append_field. Qed.
+Print Assumptions C29_append_masked_field.
+
+(** "unused bit of an existing mask" in syntactic terms (no reference to the linter's analysis). *)
+Theorem C29_unused_bit_syntactic : forall a c j fj f m b,
+  wfs a -> In c a -> is_type c || c_fun c = true ->
+  f_mask f = Some (m, b) ->
+  find_index (fun t => String.eqb (ta_name t) m) (c_targs c) = None ->
+  find_index (fun g => String.eqb (f_name g) m) (c_fields c) = Some j ->
+  nth_error (c_fields c) j = Some fj -> is_nat_field fj = true -> f_name fj = m ->
+  (forall g, In g (c_fields c) -> ~ In m (ty_names (f_ty g))) -> ~ In m (ty_names (c_res c)) ->
+  ~ In b (direct_bits c j fj) ->
+  local_mask_ok (check_nat_usages a) (add_field c f) f.
+Proof. exact local_mask_ok_syntactic. Qed.
+Print Assumptions C29_unused_bit_syntactic.
+
+(** Closed under sequences: any sequence of those edits, each judged against the base schema. *)
+Theorem C29_safe_sequences : forall fx a0 a, wf a0 -> safe_seq a0 a -> lint_with fx a0 a = Accept.
+Proof. exact lint_safe_seq. Qed.
+Print Assumptions C29_safe_sequences.
+
+(* ---- non-vacuity *)
+
+Definition ex_t : comb :=
+  mkComb "t" 1 false false [] [mkField "m" None "" (TRef "#" false []); mkField "x" (Some ("m", 0%N)) "" (TRef "int" false [])] "T" (TRef "" false []).
+Definition ex_y : field := mkField "y" (Some ("m", 1%N)) "" (TRef "int" false []).
+Definition ex_fn : comb :=
+  mkComb "getT" 2 false true [] [mkField "fm" None "" (TRef "#" false [])] "" (TRef "T" false []).
+
+Example C29_ex_step_ok : field_step_ok [ex_t] 0 ex_t ex_y.
+Proof.
+  unfold field_step_ok. cbn [nth_error]. split; [|split].
+  - exists "m", 1%N, 0%nat. split; [reflexivity|]. split; [reflexivity|]. split; [reflexivity|].
+    vm_compute. intros [H|[]]. discriminate.
+  - intros s H. vm_compute in H. intros <-. repeat (destruct H as [H|H]; [discriminate|]). destruct H.
+  - intros H. discriminate.
+Qed.
+
+Example C29_ex_sequence : safe_seq [ex_t] ([add_field ex_t ex_y] ++ [ex_fn]).
+Proof.
+  apply SS_add.
+  - apply (SS_field [ex_t] [] ex_t [] ex_y); [apply SS_base|exact C29_ex_step_ok].
+  - split; cbn; repeat constructor; intros [].
+  - intros _. reflexivity.
+  - intros H. discriminate.
+Qed.
+
+Example C29_ex_sequence_accepted : lint [ex_t] ([add_field ex_t ex_y] ++ [ex_fn]) = Accept.
 Proof. vm_compute. reflexivity. Qed.
